@@ -503,7 +503,7 @@ def g_taglines(s, p=0.35):
         n = s.rng(1, 3)
         out.append({"pre": g_miscs(s), "indent": g_indent(s), "tags": [g_tagname(s) for _ in range(n)],
                     "seps": [s.choice([" ", " ", "  ", "\t", "", " \xa0"]) for _ in range(n)], "trail": g_trail(s),
-                    "comment": s.choice([None, None, None, "#c", "# @not a tag"])})
+                    "comment": s.choice([None, None, None, "#c", "# @not a tag", "#@flaky", "#owner: qa@example.org", "# a @b c", "#"])})
     return out
 
 
